@@ -183,6 +183,8 @@ def auto_discharge(b, e):
         return None
     if k == "Overflow:Sub":
         a, c = e["ops"]
+        if is_call(deep_strip(a), "align_of") and const_of(c) == 1:
+            return "align_of::<T>() >= 1 for every type"
         facts = b.facts_at(e["pos"])
         if implies_ge(facts, a, c):
             return f"dominated by a branch fact implying {tstr(deep_strip(a))} >= {tstr(deep_strip(c))}"
